@@ -152,6 +152,11 @@ class ServicingTrip(VehicleState):
                 enter_result = VehicleState.apply_new_vehicle_state(
                     pickup_sim, self.vehicle_id, self
                 )
+                enter_error, enter_sim = enter_result
+                if enter_error is None and enter_sim is not None and len(self.route) == 0:
+                    # a trip of zero length (origin == destination) is over as soon as it starts;
+                    # an update would find the state terminal and leave it without a drop-off
+                    return drop_off_trip(enter_sim, env, self.vehicle_id, self.request)
                 return enter_result
 
     def exit(
@@ -226,7 +231,7 @@ class ServicingTrip(VehicleState):
             return None, move_sim
 
         if isinstance(moved_vehicle.vehicle_state, ServicingTrip):
-            if len(moved_vehicle.vehicle_state.route) == 0:
+            if len(self.route) > 0 and len(moved_vehicle.vehicle_state.route) == 0:
                 # reached destination.
                 # let's drop the passengers off during this time step
                 result = drop_off_trip(move_sim, env, self.vehicle_id, self.request)
